@@ -575,6 +575,116 @@ fn large_region_sweep() {
     finish(&mut w);
 }
 
+/// Externally provided mappings in every state we can make (read-write, no access, read-only,
+/// shared file mapping) described to the library with every protection / flag word a caller might
+/// pass (locked, populate, huge pages, fixed, grows-down, no bits, all bits), through both routes
+/// (`build_raw`, builder + raw pointer). Whatever the constructor answers - and whatever happens to
+/// the region object, the guest region and the collections built from it afterwards - the library
+/// never unmaps, remaps or re-protects memory it does not own.
+#[cfg(not(feature = "xen"))]
+fn external_mappings_grid() {
+    use vm_memory::mmap::MmapRegionBuilder;
+    let perms_of = |addr: usize| -> Option<String> {
+        let maps = std::fs::read_to_string("/proc/self/maps").ok()?;
+        for l in maps.lines() {
+            let mut it = l.split_whitespace();
+            let range = it.next()?;
+            let perms = it.next()?;
+            let (a, b) = range.split_once('-')?;
+            let (a, b) = (usize::from_str_radix(a, 16).ok()?, usize::from_str_radix(b, 16).ok()?);
+            if a <= addr && addr < b {
+                return Some(perms.to_string());
+            }
+        }
+        None
+    };
+    let rw = libc::PROT_READ | libc::PROT_WRITE;
+    let pa = libc::MAP_PRIVATE | libc::MAP_ANONYMOUS;
+    let states: [(&str, i32, bool); 4] = [("rw", rw, false), ("none", libc::PROT_NONE, false), ("ro", libc::PROT_READ, false), ("shared-file", rw, true)];
+    let flag_words: [(&str, i32); 11] = [
+        ("private|anon", pa),
+        ("+locked", pa | libc::MAP_LOCKED),
+        ("+populate", pa | libc::MAP_POPULATE),
+        ("+locked+populate", pa | libc::MAP_LOCKED | libc::MAP_POPULATE),
+        ("+noreserve", pa | libc::MAP_NORESERVE),
+        ("+hugetlb", pa | libc::MAP_HUGETLB),
+        ("+fixed", pa | libc::MAP_FIXED),
+        ("+growsdown+stack", pa | libc::MAP_GROWSDOWN | libc::MAP_STACK),
+        ("shared", libc::MAP_SHARED),
+        ("no-bits", 0),
+        ("all-bits", -1),
+    ];
+    let mut cells = 0u64;
+    let mut refused = 0u64;
+    for (sname, sprot, file) in states {
+        for (fname, flags) in flag_words {
+            for dprot in [rw, libc::PROT_NONE, libc::PROT_READ, -1] {
+                for (len, route) in [(1usize, 0u8), (4096, 1), (4097, 0), (8192, 2), (100, 3)] {
+                    let mlen = len.div_ceil(4096) * 4096 + 4096;
+                    let backing = if file { Some(crate::models::world::temp_file(mlen as u64)) } else { None };
+                    // SAFETY: a fresh mapping of our own.
+                    let p = unsafe {
+                        match &backing {
+                            Some(f) => libc::mmap(std::ptr::null_mut(), mlen, sprot, libc::MAP_SHARED, std::os::fd::AsRawFd::as_raw_fd(f), 0),
+                            None => libc::mmap(std::ptr::null_mut(), mlen, sprot, pa, -1, 0),
+                        }
+                    };
+                    assert!(p != libc::MAP_FAILED);
+                    let addr = p as usize;
+                    let perms0 = perms_of(addr);
+                    interpose::arm();
+                    // SAFETY: describes `len` bytes inside our own live mapping; nothing is accessed
+                    // through the region object.
+                    let res = unsafe {
+                        match route {
+                            0 => MmapRegion::<()>::build_raw(p as *mut u8, len, dprot, flags),
+                            1 => MmapRegionBuilder::<()>::new(len).with_raw_mmap_pointer(p as *mut u8).with_mmap_prot(dprot).with_mmap_flags(flags).build(),
+                            2 => MmapRegionBuilder::<()>::new(len).with_mmap_prot(dprot).with_mmap_flags(flags).with_hugetlbfs(true).with_raw_mmap_pointer(p as *mut u8).build(),
+                            _ => MmapRegionBuilder::<()>::new_with_bitmap(len, ()).with_raw_mmap_pointer(p as *mut u8).with_mmap_prot(dprot).with_mmap_flags(flags).build(),
+                        }
+                    };
+                    let ok = res.is_ok();
+                    refused += !ok as u64;
+                    if let Ok(region) = res {
+                        if let Ok(g) = GuestRegionMmap::new(region, GuestAddress(0x4000)) {
+                            if let Ok(gm) = GuestMemoryMmap::from_regions(vec![g]) {
+                                let c = gm.clone();
+                                drop(gm);
+                                drop(c);
+                            }
+                        }
+                    }
+                    let log = interpose::disarm();
+                    let touched: Vec<&Ev> = log
+                        .iter()
+                        .filter(|e| match e {
+                            Ev::Munmap { addr: a, len: l, .. } => *a < addr + mlen && addr < *a + (*l).max(1),
+                            Ev::Mmap { addr: a, len: l, flags: f, .. } => *a != 0 && (f & libc::MAP_FIXED) != 0 && *a < addr + mlen && addr < *a + (*l).max(1),
+                            _ => false,
+                        })
+                        .collect();
+                    // SAFETY: msync on an address range only reports whether it is mapped.
+                    let still = unsafe { libc::msync(p, mlen, libc::MS_ASYNC) } == 0;
+                    let perms1 = perms_of(addr);
+                    if !touched.is_empty() || !still || perms0 != perms1 {
+                        v("external-mapping/library-unmapped-or-changed-memory-it-does-not-own", jobj! {"external_mapping" => sname, "described_flags" => fname, "described_prot" => dprot, "route" => route as u64, "len" => len, "constructor_ok" => ok, "still_mapped" => still, "perms_before" => J::dbg(&perms0), "perms_after" => J::dbg(&perms1), "calls_on_it" => J::dbg(&touched)});
+                    }
+                    // SAFETY: our own mapping, released by its owner.
+                    let rc = unsafe { libc::munmap(p, mlen) };
+                    if rc != 0 && still {
+                        v("external-mapping/owner-could-not-release-its-mapping", jobj! {"external_mapping" => sname, "described_flags" => fname});
+                    }
+                    out::key(&format!("external|{}|{}|prot{}|route{}|ok={}", sname, fname, dprot, route, ok), true);
+                    out::eval(1);
+                    cells += 1;
+                }
+            }
+        }
+    }
+    out::count("external_mapping_cells", cells as i128);
+    out::count("external_mapping_constructor_refusals", refused as i128);
+}
+
 /// Requests that must be refused. Whatever they mapped on the way has no owner afterwards and
 /// must be gone when the call returns (judged by `settle`: mmaps of the step == munmaps of the step).
 const FAILING: usize = 9;
@@ -849,6 +959,12 @@ pub fn run(args: &Args) {
     if args.shard().0 == 0 && !cfg!(miri) && !args.flag("nolarge") {
         if let Err(p) = guarded(large_region_sweep) {
             v(&format!("panic/large-region-sweep/{}", panic_sig(&p)), J::s(p));
+        }
+    }
+    #[cfg(not(feature = "xen"))]
+    if args.shard().0 == 0 && !cfg!(miri) && interpose::available() {
+        if let Err(p) = guarded(external_mappings_grid) {
+            v(&format!("panic/external-mappings/{}", panic_sig(&p)), J::s(p));
         }
     }
     for case in args.cases(300) {
